@@ -39,7 +39,7 @@ def run(ctx):
         tn += t
         nn += k
     res = lib.validate(ctx, "H1ServerTrace", "H1ServerTrace.cfg", ta + tb + tn, timeout=1800)
-    lib.handle_rejections(ctx, res, lambda cl: rerun(ctx, cl))
+    lib.handle_rejections(ctx, res, lambda cl: rerun(ctx, cl), rerun_hist=lambda seq: h1common.rerun_h1srv_hist(ctx, seq))
 
     def overread(recs):
         # a stream read that returns one byte of the following request as body
